@@ -80,7 +80,7 @@ func c19Run(env *core.Env, idx int) *core.CaseResult {
 	res.Add("workload_runs_"+w, 1)
 	if inner != nil {
 		for k, v := range inner.Stats {
-			if strings.Contains(k, "operations") || strings.Contains(k, "statements") || strings.Contains(k, "transactions") || strings.Contains(k, "clients") {
+			if strings.Contains(k, "operations") || k == "conc_ops" || strings.Contains(k, "statements") || strings.Contains(k, "transactions") || strings.Contains(k, "clients") {
 				res.Add(w+"_"+k, v)
 				res.Nontrivial = true
 			}
